@@ -7,6 +7,16 @@ import SalsaVerif.Model.Intern
 namespace SalsaVerif.Proofs.InternQueue
 open SalsaVerif.Model.Intern
 
+theorem recOnSnoc {α : Type} {P : List α → Prop} (nil : P [])
+    (snoc : ∀ l a, P l → P (l ++ [a])) : ∀ l, P l := by
+  intro l
+  have h : ∀ r : List α, P r.reverse := by
+    intro r
+    induction r with
+    | nil => simpa using nil
+    | cons a t ih => rw [List.reverse_cons]; exact snoc _ _ ih
+  simpa using h l.reverse
+
 /-- Record a sequence of revisions (chronological order). -/
 def recordAll : RevisionQueue → List Nat → Option RevisionQueue
   | q, [] => some q
